@@ -25,8 +25,10 @@ CLAIMED = {
         note="multi-threaded conservation is not modelled here (C02)."),
     "C14": dict(
         text="Executable models of FIFO, LRU, SIEVE, S3-FIFO and w-TinyLFU predict the victim sequence of the real "
-             "code on random scripts; theorems: each container returns only resident unpinned records (so the "
-             "generic theorems apply to it), FIFO and LRU refine their stamped specifications.",
+             "code on random scripts and skewed traces; theorems: each container returns only resident unpinned records "
+             "(so the generic theorems apply to it), FIFO and LRU refine their stamped specifications, SIEVE follows the "
+             "published hand rule for every queue and hand position (first unvisited record from the hand, wrapping; bits "
+             "of passed records cleared; all visited: once around); S3-FIFO and w-TinyLFU by kernel-evaluated scenarios.",
         ref="4/C14", tech="Coq proof (container invariants, spec refinement) + extracted-model correspondence",
         note="float->integer rounding of derived capacities and the count-min bucket hashing are inputs computed "
              "by the harness with the code's own expressions."),
@@ -49,14 +51,19 @@ CLAIMED = {
         text="Theorems (any block/index size, any sequence of batches of admissible entry lengths): the splitter's "
              "'handle loop never needs more than three rounds, the split context invariant carries across batches, "
              "every placed entry is page aligned, behind its blob's index page, inside its block and back to back with "
-             "its neighbours; parts of one block come out in increasing, non-overlapping order and the context's cursor "
-             "never moves backwards within a block. Correspondence: real Splitter::split vs the extracted model on "
-             "batch sequences built to fill index and block exactly, continue blobs across batches and span blocks; "
-             "an independent scanner (Python) re-reads the implementation's layout and must recover exactly the "
-             "entries written. PARTIAL: scan exactness and loadability are checked by that oracle, not proved in Coq; "
-             "device-level comparison after reclaim/reuse belongs to the storage stream.",
-        ref="4/C07", tech="Coq proof (splitter invariant) + extracted-model correspondence + independent scanner oracle",
-        note="drives Splitter::split directly (hook H1); placement formula of flusher.rs is part of the model."),
+             "its neighbours; the parts of every physical block, over any sequence of batches, form a chain of blobs "
+             "(c07_blocks_are_chained); scan exactness (c07_scan_exact): BlockScanner + the regress check of recovery, "
+             "run over what the flusher wrote into a block on top of ARBITRARY older content of that block, return exactly "
+             "the entries written, in order, at the addresses given to the indexer (hypotheses: the block's sequences do not "
+             "regress - what a reinserted entry violates, finding F10 - and the old content is older). Correspondence: real "
+             "Splitter::split vs the extracted model on batch sequences built to fill index and block exactly, continue "
+             "blobs across batches and span blocks, half of them filled by the real Buffer::push and read back entry by "
+             "entry; the extracted scanner is run over the index pages found on closed device images (reused blocks "
+             "included) and must predict what the reopened store serves for every key; an independent scanner (Python) "
+             "re-reads the layout; end-to-end streams with a must-hit oracle.",
+        ref="4/C07", tech="Coq proof (splitter invariant, chain invariant, scan exactness) + extracted-model correspondence (splitter and scanner) + oracles",
+        note="drives Splitter::split and Buffer::push directly (hook H1); entry data is not part of the scan model (a data "
+             "page that parses as an index page is C03's subject)."),
     "C08": dict(
         text="Theorems: decode(encode x) = x for every numeric width, bool, Vec<u8>, String (under from_utf8 validity), "
              "the entry header, and whole entries (value then key, recorded lengths = bytes written, checksum over exactly "
@@ -129,7 +136,9 @@ CLAIMED.update({
              "version (not in-memory-only, admitted, not young) is on the device, indexed, the pipeline is empty and a lookup "
              "returns it; a reopen whose scan reads the device completely serves exactly it (the winner of recovery is the "
              "highest sequence among copies and logged tombstones, and nothing on the device is newer: invariants TInv, MInv); "
-             "with flush-on-close off nothing is submitted at close; whatever a reopened store answers is the latest value. "
+             "with flush-on-close off nothing is submitted at close; whatever a reopened store answers is the latest value; "
+             "memory tier (M-SHARD): the flush at close leaves the shard empty and gives every resident record - referenced "
+             "or not, whatever it weighs - the eviction step and the hand-off to the pipe (found and fixed F19). "
              "Correspondence and oracle: histories ending in close + reopen (both policies, resident sets up to the buffer limit, "
              "entries updated after their first write, burst close, late remove, repeated close).",
         ref="4/C15", tech="Coq proof (progress of the drain loop + invariant) + extracted-model correspondence + persistence oracle",
